@@ -21,6 +21,7 @@ import (
 	"strconv"
 	"strings"
 	"sync"
+	"sync/atomic"
 	"time"
 
 	"verif/kit"
@@ -55,7 +56,7 @@ type Case struct {
 	NoWrap bool
 	// DiffLabel adds to the key of an output mismatch where the first
 	// difference is: DiffPrefix = the "name" of the first differing "name: …"
-	// line; DiffLine = that whole line with its numbers normalised.
+	// line; DiffLine = the first word of that line.
 	DiffLabel int
 }
 
@@ -181,6 +182,8 @@ type Family struct {
 	Gen  func(i uint64) Case
 	// AllowGo builds the Scriggo programs with BuildOptions.AllowGoStmt.
 	AllowGo bool
+	// Batch is the number of cases per gc source file (default BatchSize).
+	Batch uint64
 	// Timeout, when non-zero, runs the Scriggo program with a context that
 	// expires after it (used only by families with channel operations, where a
 	// miscompiled program could block for ever).
@@ -190,11 +193,19 @@ type Family struct {
 	init    sync.Once
 }
 
+func (f *Family) bs() uint64 {
+	if f.Batch > 0 {
+		return f.Batch
+	}
+	return BatchSize
+}
+
 func (f *Family) batchOf(i uint64) *batch {
-	f.init.Do(func() { f.batches = make([]batch, (f.Size+BatchSize-1)/BatchSize) })
-	bi := i / BatchSize
+	n := f.bs()
+	f.init.Do(func() { f.batches = make([]batch, (f.Size+n-1)/n) })
+	bi := i / n
 	b := &f.batches[bi]
-	b.once.Do(func() { f.compute(b, bi*BatchSize, min((bi+1)*BatchSize, f.Size)) })
+	b.once.Do(func() { f.compute(b, bi*n, min((bi+1)*n, f.Size)) })
 	return b
 }
 
@@ -300,8 +311,31 @@ type ScriggoResult struct {
 
 var posPrefix = regexp.MustCompile(`^[^ ]*:\d+:\d+: `)
 
-// RunScriggo builds and runs src with Scriggo's public API.
-func RunScriggo(src []byte, allowGo bool, timeout time.Duration) (res ScriggoResult) {
+// HangAfter is how long a Build or a Run may take before the case is declared
+// hanging (a case normally takes well under a millisecond).
+var HangAfter = 20 * time.Second
+
+// RunScriggo builds and runs src with Scriggo's public API. Build and Run
+// execute on their own goroutine under a watchdog: a compiler or VM that
+// spins for ever is reported as status "hang" (the goroutine is abandoned; it
+// keeps one core busy until the worker process ends, which is harmless).
+func RunScriggo(src []byte, allowGo bool, timeout time.Duration) ScriggoResult {
+	ch := make(chan ScriggoResult, 1)
+	var phase atomic.Int32
+	go func() { ch <- runScriggo(src, allowGo, timeout, &phase) }()
+	select {
+	case r := <-ch:
+		return r
+	case <-time.After(HangAfter):
+		what := "Build"
+		if phase.Load() == 1 {
+			what = "Run"
+		}
+		return ScriggoResult{Status: "hang", Msg: what + " did not return within " + HangAfter.String()}
+	}
+}
+
+func runScriggo(src []byte, allowGo bool, timeout time.Duration, phase *atomic.Int32) (res ScriggoResult) {
 	var mu sync.Mutex
 	var out []byte
 	unprintable := false
@@ -339,6 +373,7 @@ func RunScriggo(src []byte, allowGo bool, timeout time.Duration) (res ScriggoRes
 		defer cancel()
 		ro.Context = ctx
 	}
+	phase.Store(1)
 	err = p.Run(ro)
 	mu.Lock()
 	defer mu.Unlock()
@@ -387,6 +422,7 @@ func Compare(c *Case, want string, got ScriggoResult) kit.Outcome {
 	o.OK = false
 	var sc string
 	withKind := false
+	familyOnly := false // the defect does not depend on the operator/form: key it by family only
 	switch got.Status {
 	case "ok":
 		sc = classify(got.Out)
@@ -398,6 +434,7 @@ func Compare(c *Case, want string, got ScriggoResult) kit.Outcome {
 				sc += "(first difference at " + firstDiffLabel(want, got.Out, c.DiffLabel) + ")"
 			}
 		case sc == gcClass:
+			gcClass = "panic"
 			sc = "same-panic-but-output-differs"
 			if c.DiffLabel != DiffNone {
 				sc += "(first difference at " + firstDiffLabel(want, got.Out, c.DiffLabel) + ")"
@@ -406,12 +443,19 @@ func Compare(c *Case, want string, got ScriggoResult) kit.Outcome {
 			// Scriggo's message is a proper prefix of gc's (e.g. the shortened slice-bounds text)
 			gcClass = strings.TrimSuffix(sc, ")") + "…)"
 			sc = "panic-text-shortened"
+			familyOnly = true
 		case gcClass == "value":
 			withKind = true
 		}
 	case "build-error":
+		if strings.Contains(got.Msg, "not supported in this release of Scriggo") {
+			// Scriggo states that the construct is outside the subset it implements:
+			// the program is not in the property's domain
+			return kit.Outcome{OK: true, Class: "outside Scriggo's subset (" + kit.NormMsg(got.Msg) + ")", Ops: 1}
+		}
 		sc = "build-error(" + kit.NormMsg(got.Msg) + ")"
 	case "host-panic":
+		sc = "host-panic"
 		o.Key = "hostpanic|" + got.Frame + "|" + kit.NormMsg(got.Msg)
 	case "panic":
 		sc = "unrecovered-panic(" + kit.NormMsg(got.Msg) + ")"
@@ -423,6 +467,11 @@ func Compare(c *Case, want string, got ScriggoResult) kit.Outcome {
 	}
 	if o.Key == "" {
 		o.Key = c.Key
+		if familyOnly {
+			if i := strings.IndexByte(o.Key, ' '); i > 0 {
+				o.Key = o.Key[:i]
+			}
+		}
 		if withKind && c.Kind != "" {
 			o.Key += " kind=" + c.Kind
 		}
@@ -442,6 +491,10 @@ func firstDiffLabel(want, got string, mode int) string {
 			if k := strings.IndexByte(ln, ':'); k > 0 {
 				return ln[:k]
 			}
+		}
+		// the first word of the line names what the line reports
+		if k := strings.IndexAny(ln, " :"); k > 0 {
+			ln = ln[:k]
 		}
 		return strconv.Quote(kit.NormMsg(ln))
 	}
@@ -508,7 +561,7 @@ func (f *Family) Space() kit.Space {
 
 // BatchSource returns the gc source of batch bi (for debugging and setup).
 func (f *Family) BatchSource(bi uint64) []byte {
-	src, _ := batchSource(f.Gen, bi*BatchSize, min((bi+1)*BatchSize, f.Size), nil)
+	src, _ := batchSource(f.Gen, bi*f.bs(), min((bi+1)*f.bs(), f.Size), nil)
 	return src
 }
 
@@ -532,7 +585,7 @@ func (f *Family) Want(i uint64) (out string, rejected string, err error) {
 // Prefill computes (or loads) the gc results of every batch of the family,
 // in parallel; used by setup.sh to warm the cache.
 func (f *Family) Prefill(par int) error {
-	nb := (f.Size + BatchSize - 1) / BatchSize
+	nb := (f.Size + f.bs() - 1) / f.bs()
 	sem := make(chan struct{}, par)
 	var wg sync.WaitGroup
 	var mu sync.Mutex
@@ -543,7 +596,7 @@ func (f *Family) Prefill(par int) error {
 		go func(bi uint64) {
 			defer wg.Done()
 			defer func() { <-sem }()
-			b := f.batchOf(bi * BatchSize)
+			b := f.batchOf(bi * f.bs())
 			if b.err != "" {
 				mu.Lock()
 				if first == nil {
